@@ -42,7 +42,7 @@ RULE = ("history = terminal identity + screen size <= 60x30 + pool of <= 6 widge
 PROBES = ["image_moved_between_redraws", "image_disappeared", "bare_non_composite_canvas",
           "overlay_covers_image", "list_scrolled", "widget_collected_z_index_reused",
           "stop_start_cycle", "clear_images_now", "konsole_iterm2_image", "resize",
-          "ghost_free_redraws"]
+          "ghost_free_redraws", "returned_to_earlier_layout"]
 COMPONENTS = {
     "real": ["UrwidImageScreen (draw_screen, clear, clear_images, _start, _stop, "
              "_ti_clear_images)", "UrwidImage / UrwidImageCanvas", "KittyImage / ITerm2Image / "
@@ -67,6 +67,15 @@ class FakeIn:
 
     def isatty(self):
         return False
+
+
+def copy_layout(x):
+    """Structural copy of a layout description; widgets stay the same objects."""
+    if isinstance(x, dict):
+        return {k: copy_layout(v) for k, v in x.items()}
+    if isinstance(x, (list, tuple)):
+        return type(x)(copy_layout(v) for v in x)
+    return x
 
 
 def run(ch, ctx, fault=None):
@@ -296,6 +305,7 @@ def run(ch, ctx, fault=None):
 
         do_start()
         n_ops = ch.int("n_ops", 3, ctx.cfg["max_ops"])
+        earlier = []
         for i in range(n_ops):
             # explicit clear_images() is generated at most once between two redraws (the
             # disguise state is modulo 3: three calls without a redraw wrap it, as the
@@ -377,6 +387,7 @@ def run(ch, ctx, fault=None):
                 d = pool.pop(idx)
                 desc = "drop %s, collect" % d["desc"]
                 z = getattr(d["w"], "_ti_z_index", None)
+                del earlier[:]          # layouts refer to pool indexes
                 layout = gen_layout()
                 last = None
                 d = None
@@ -385,7 +396,15 @@ def run(ch, ctx, fault=None):
                 if z is not None:
                     ctx.probe("widget_collected_z_index_reused")
             elif op == "layout":
-                layout = gen_layout()
+                if earlier and ch.bool("back", 0.3):
+                    # back to an earlier layout (close a dialog, switch tabs and back): the
+                    # images return to places the screen has seen them at before
+                    layout = copy_layout(ch.pick("earlier", earlier))
+                    ctx.probe("returned_to_earlier_layout")
+                else:
+                    layout = gen_layout()
+                    if len(earlier) < 6:
+                        earlier.append(copy_layout(layout))
                 desc = "layout -> %r" % (layout,)
             elif op == "scroll":
                 if layout["kind"] != "list":
